@@ -28,6 +28,8 @@ known("C20","C20/not-reflexive/OPT","OPT.isDuplicate is hard-wired to false: an 
 known("C20","C20/not-reflexive/XPRIV","PrivateRR.isDuplicate is hard-wired to false: a user-registered private record is never a duplicate of itself or of its copy")
 fixed("C20","C20/is-true-want-false/AMTRELAY/field","5591374","AMTRELAY records with the discovery bit set and different relays were reported as duplicates (isDuplicate switched on the unmasked type octet)")
 
+# ---- C11
+fixed("C11","C11/accepts-altered/field/fudge-zero","a6d820e","TsigVerify substituted the default fudge 300 (and the current time) for a zero fudge / time signed found in the received TSIG, so a message whose fudge was changed from 300 to 0 still verified")
 # ---- C15
 fixed("C15","C15/fault-hidden/rcode/axfr/plain","4093943","an incoming AXFR ignored an error RCODE in every envelope but the first and reported the transfer as complete and error-free")
 
